@@ -6,4 +6,7 @@ import JugModel.Props.WorkerBridge
 #print axioms Jug.C01.rerun_noop
 #print axioms Jug.C01.exec_complete_partial
 #print axioms Jug.C01.started_tasks_have_reference_value
+#print axioms Jug.C01.exec_complete
+#print axioms Jug.C01.exec_complete_reference
+#print axioms Jug.WorkerBridge.worker_scans_all
 #print axioms Jug.WorkerBridge.worker_conforms
